@@ -860,19 +860,19 @@ Section Proofs.
   Proof.
     intros s s' HI Hst. destruct Hst as [s i p n Hn|s i p Hn|s p Hpc Hcnt Houts Htodo Hfresh].
     - pose proof (Inv_pstep s i p n HI Hn) as (Hpid & HG & Hok').
-      destruct HI as (Hsep & Hvr & Hvd & HB & HL & Hnd & HF). cbn [s_fs s_procs].
+      destruct HI as (Hsep & Hvr & Hvd & HB & HL & Hnd & HF). unfold Inv. cbn [s_fs s_procs].
       repeat (split; [assumption|]). split; [eapply G_BlobInv; eassumption|]. split; [eapply G_LinkInv; eassumption|].
       split.
       + rewrite (map_replace_nth_same _ _ p_pid _ i p _ Hn Hpid). exact Hnd.
       + apply (Forall_replace_nth _ _ p_pid (proc_ok (s_fs s)) _ _ i p _ Hn Hnd HF Hok').
         intros q _ Hq Hokq. eapply proc_ok_stable; eassumption.
     - pose proof (Inv_proc s i p HI Hn) as Hok.
-      destruct HI as (Hsep & Hvr & Hvd & HB & HL & Hnd & HF). cbn [s_fs s_procs].
+      destruct HI as (Hsep & Hvr & Hvd & HB & HL & Hnd & HF). unfold Inv. cbn [s_fs s_procs].
       repeat (split; [assumption|]). split.
       + rewrite (map_replace_nth_same _ _ p_pid _ i p (fail p) Hn eq_refl). exact Hnd.
       + apply (Forall_replace_nth _ _ p_pid (proc_ok (s_fs s)) _ _ i p _ Hn Hnd HF (proc_ok_fail _ _ Hok)).
         intros q _ _ Hokq. exact Hokq.
-    - destruct HI as (Hsep & Hvr & Hvd & HB & HL & Hnd & HF). cbn [s_fs s_procs].
+    - destruct HI as (Hsep & Hvr & Hvd & HB & HL & Hnd & HF). unfold Inv. cbn [s_fs s_procs].
       repeat (split; [assumption|]). split.
       + rewrite map_app. simpl. clear - Hnd Hfresh. induction (s_procs s) as [|q l IH]; simpl.
         * constructor; [intros []|constructor].
@@ -959,21 +959,27 @@ Section Proofs.
       destruct (HL loc t' Hv Hl2) as (k2 & Hk2 & Ht2). exists k2. split; [exact Hk2|congruence].
   Qed.
 
+  Lemma reader_step_ok : forall fs p n, proc_ok fs p -> reader_pc (p_pc p) = true ->
+    p_pc (snd (pstep fs p n)) <> PFailed.
+  Proof.
+    intros fs p n (Hc & _) Hrd.
+    destruct (p_pc p) eqn:Hpc; try discriminate; unfold LocalProgs.pstep; rewrite Hpc; cbv beta iota; simpl in Hc.
+    - simpl. discriminate.
+    - destruct (fs_exists fs (blob k)); simpl; discriminate.
+    - destruct (fs_exists fs (meta k)); simpl; discriminate.
+    - destruct Hc as [_ Hm]. unfold fs_read. rewrite Hm. simpl. discriminate.
+    - destruct Hc as (_ & _ & Hb). unfold fs_read. rewrite Hb. simpl. discriminate.
+    - destruct (fs_exists fs (parent loc)); simpl; discriminate.
+    - destruct (fs_exists fs loc); simpl; discriminate.
+    - simpl. discriminate.
+  Qed.
+
   Lemma readers_never_fail : forall s0 s i p n, init_ok s0 -> reachable s0 s ->
     nth_error (s_procs s) i = Some p -> reader_pc (p_pc p) = true ->
     p_pc (snd (pstep (s_fs s) p n)) <> PFailed.
   Proof.
     intros s0 s i p n H0 Hr Hn Hrd. pose proof (Inv_reachable s0 s H0 Hr) as HI.
-    pose proof (Inv_proc s i p HI Hn) as (Hc & _).
-    destruct (p_pc p) eqn:Hpc; try discriminate; unfold LocalProgs.pstep; rewrite Hpc; cbv beta iota; simpl in Hc.
-    - simpl. discriminate.
-    - destruct (fs_exists (s_fs s) (blob k)); simpl; discriminate.
-    - destruct (fs_exists (s_fs s) (meta k)); simpl; discriminate.
-    - destruct Hc as [_ Hm]. unfold fs_read. rewrite Hm. simpl. discriminate.
-    - destruct Hc as (_ & _ & Hb). unfold fs_read. rewrite Hb. simpl. discriminate.
-    - destruct (fs_exists (s_fs s) (parent loc)); simpl; discriminate.
-    - destruct (fs_exists (s_fs s) loc); simpl; discriminate.
-    - simpl. discriminate.
+    apply reader_step_ok; [|exact Hrd]. eapply Inv_proc; eassumption.
   Qed.
 
   Lemma commit_installs : forall s0 s (s' : fsys) i p n loc k items, init_ok s0 -> reachable s0 s ->
@@ -989,4 +995,737 @@ Section Proofs.
       rewrite upd_other; [apply upd_same|]. apply tmp_of_neq_visible. apply good_loc_visible. exact Hl.
     - intro H. contradiction H. reflexivity.
   Qed.
+
+  (* ------------------------------------------------------------------------------------------------------------ *)
+  (* the evaluation discipline: every committed key is complete *)
+  Definition items_live (fs : fsys) (items : list (path * bytes)) : Prop :=
+    forall loc k, In (loc, k) items -> complete fs k.
+
+  Fixpoint disc_pc (fs : fsys) (todo : list opcall) (c : pc) : Prop :=
+    match c with
+    | PMkdirs _ next => disc_pc fs todo next
+    | PSB_create k | PSB_write k _ | PSB_close k | PSB_replace k
+    | PSM_create k | PSM_write k _ | PSM_close k | PSM_replace k =>
+      todo_ok (fun k' => k' = k \/ complete fs k') todo
+    | PSP_next items => items_live fs items /\ todo_ok (fun k => complete fs k) todo
+    | PSP_check loc k items | PSP_symlink loc k items | PSP_replace loc k items =>
+      complete fs k /\ items_live fs items /\ todo_ok (fun k => complete fs k) todo
+    | _ => todo_ok (fun k => complete fs k) todo
+    end.
+
+  Definition disc_ok (fs : fsys) (p : proc) : Prop := disc_pc fs (p_todo p) (p_pc p).
+
+  Lemma todo_ok_mono : forall todo (have have' : bytes -> Prop),
+    (forall k, good_key k = true -> have k -> have' k) -> Forall good_op todo -> todo_ok have todo -> todo_ok have' todo.
+  Proof.
+    induction todo as [|o r IH]; intros have have' Hm Hg H; simpl in *; [exact I|].
+    inversion Hg as [|o' r' Ho Hr]; subst.
+    destruct o as [|k|items|k|k|loc]; try (eapply IH; eassumption).
+    - eapply IH; [|exact Hr|exact H]. intros k' Hk' [E|E]; [left; exact E|right; apply Hm; assumption].
+    - destruct H as [H1 H2]. split; [|eapply IH; eassumption].
+      intros loc k Hin. apply Hm; [|eapply H1; exact Hin]. simpl in Ho. apply (Ho loc k Hin).
+  Qed.
+
+  Lemma disc_pc_stable : forall p p' fs fs' pid cnt todo c, separated -> G p p' fs fs' ->
+    pc_ok fs pid cnt c -> Forall good_op todo -> disc_pc fs todo c -> disc_pc fs' todo c.
+  Proof.
+    intros p p' fs fs' pid cnt todo c Hsep HG Hc Hg.
+    assert (Hcm : forall k, good_key k = true -> complete fs k -> complete fs' k)
+      by (intros k Hk; eapply G_complete_mono; eassumption).
+    assert (Ht : todo_ok (fun k => complete fs k) todo -> todo_ok (fun k => complete fs' k) todo)
+      by (apply todo_ok_mono; [exact Hcm|exact Hg]).
+    assert (Hts : forall k, todo_ok (fun k' => k' = k \/ complete fs k') todo ->
+                            todo_ok (fun k' => k' = k \/ complete fs' k') todo).
+    { intro k. apply todo_ok_mono; [|exact Hg]. intros k' Hk' [E|E]; [left; exact E|right; auto]. }
+    assert (Hil : forall items, good_items items -> items_live fs items -> items_live fs' items).
+    { intros items Hgi Hl loc k Hin. apply Hcm; [apply (Hgi loc k Hin)|apply (Hl loc k Hin)]. }
+    induction c as [|dirs next IH| | | | | | | | | | | | | | | | | | | | |]; simpl in *; intro H;
+      try (apply Ht; exact H); try (apply Hts; exact H).
+    - apply IH; [apply Hc|exact H].
+    - destruct H as [H1 H2]. split; [apply Hil; assumption|apply Ht; exact H2].
+    - destruct Hc as (Hk & _ & Hgi). destruct H as (H1 & H2 & H3). auto.
+    - destruct Hc as (Hk & _ & Hgi). destruct H as (H1 & H2 & H3). auto.
+    - destruct Hc as (Hk & _ & Hgi & _). destruct H as (H1 & H2 & H3). auto.
+  Qed.
+
+  Lemma sm_replace_complete : forall fs pid cnt k fs', visible root = true -> pc_ok fs pid cnt (PSM_replace k) ->
+    do_replace fs (tmp_of (meta k) pid cnt) (meta k) = Some fs' -> complete fs' k.
+  Proof.
+    intros fs pid cnt k fs' Hvr (Hk & Hbl & Hc) E.
+    apply do_replace_some in E as (nd & E1 & E2 & E3 & E). subst fs'. rewrite Hc in E1. inversion E1; subst nd. split.
+    - rewrite upd_other; [apply upd_same|]. apply tmp_of_neq_visible. apply meta_visible. exact Hvr.
+    - rewrite upd_other; [|apply tmp_of_neq_visible; apply blob_visible; exact Hvr].
+      rewrite upd_other; [exact Hbl|]. apply blob_not_meta. exact Hk.
+  Qed.
+
+  Lemma disc_step : forall fs p n, separated -> visible root = true -> visible data = true -> BlobInv fs ->
+    proc_ok fs p -> disc_ok fs p -> disc_ok (fst (pstep fs p n)) (snd (pstep fs p n)).
+  Proof.
+    intros fs p n Hsep Hvr Hvd HB Hok Hd.
+    pose proof (pstep_sound fs p n Hsep Hvr Hvd HB Hok) as (_ & HG & _).
+    assert (H' : disc_pc (fst (pstep fs p n)) (p_todo p) (p_pc p)).
+    { destruct Hok as (Hc & Hg & _). eapply disc_pc_stable; eassumption. }
+    pose proof (proj1 Hok) as Hc. clear HG Hd. revert H'. unfold disc_ok.
+    destruct (p_pc p) as [|dirs next|k|k rest|k|k|k|k rest|k|k|items|loc k items|loc k items|loc k items|k|k|k|k|k m|loc|loc|loc|] eqn:Hpc;
+      unfold LocalProgs.pstep; rewrite Hpc; cbv beta iota;
+      try (destruct rest as [|a r']; cbv beta iota zeta);
+      try (match goal with |- context [or_fail _ _ ?r _] => destruct r eqn:E end);
+      cbn [or_fail fst snd fail set_pc bump finish p_pc p_todo disc_pc todo_ok]; intro H'; try exact H'; try exact I.
+    - (* idle *) destruct (p_todo p) as [|o r] eqn:Htodo; cbn [fst snd p_pc p_todo] in *.
+      + rewrite Htodo, Hpc. exact H'.
+      + destruct o; simpl in *; tauto.
+    - (* mkdirs *) destruct dirs as [|d r].
+      + destruct next; cbn [fst snd set_pc finish p_pc p_todo disc_pc] in *; exact H'.
+      + destruct (do_mkdir fs d); [exact H'|]. destruct (fs_isdir fs d); cbn [fst snd set_pc fail p_pc p_todo disc_pc todo_ok] in *;
+          [exact H'|exact I].
+    - (* PSM_replace *) unfold tmpm in E. pose proof (sm_replace_complete _ _ _ _ _ Hvr Hc E) as Hcp.
+      revert H'. apply todo_ok_mono; [|apply Hok]. intros k' _ [Ek|Ek]; [subst k'; exact Hcp|exact Ek].
+    - (* PSP_next *) destruct items as [|[loc k] items]; cbn [fst snd set_pc finish p_pc p_todo disc_pc] in *.
+      + apply H'.
+      + destruct H' as [H1 H2].
+        assert (H3 : complete fs k /\ items_live fs items /\ todo_ok (fun k0 => complete fs k0) (p_todo p)).
+        { split; [apply (H1 loc k); left; reflexivity|]. split; [|exact H2]. intros l' k' Hin. apply (H1 l' k'). right. exact Hin. }
+        destruct (fs_exists fs (parent loc)); exact H3.
+    - (* PSP_check *) destruct (fs_exists fs loc && path_eqb (fs_realpath fs loc) (blob k)); cbn [disc_pc]; tauto.
+    - (* PSP_replace *) tauto.
+    - (* stat_blob *) destruct (fs_exists fs (blob k)); exact H'.
+    - (* stat_meta *) destruct (fs_exists fs (meta k)); exact H'.
+    - (* read_meta *) destruct (fs_read fs (meta k)); cbn [fst snd fail set_pc p_pc p_todo disc_pc todo_ok]; [exact H'|exact I].
+    - (* read_blob *) destruct (fs_read fs (blob k)); cbn [fst snd fail finish p_pc p_todo disc_pc todo_ok]; [exact H'|exact I].
+    - destruct (fs_exists fs (parent loc)); exact H'.
+    - destruct (fs_exists fs loc); exact H'.
+    - rewrite Hpc. exact H'.
+  Qed.
+
+  Definition InvL (s : sys) : Prop :=
+    Inv s /\ LinkLive (s_fs s) /\ Forall (disc_ok (s_fs s)) (s_procs s).
+
+  Lemma step_length : forall s s', sys_step s s' -> List.length (s_procs s) <= List.length (s_procs s').
+  Proof.
+    intros s s' Hst. destruct Hst as [s i p n Hn|s i p Hn|s p Hpc Hcnt Houts Htodo Hfresh]; cbn [s_procs].
+    - rewrite replace_nth_length. lia.
+    - rewrite replace_nth_length. lia.
+    - rewrite app_length. simpl. lia.
+  Qed.
+
+  Lemma reach_length : forall s0 s, reachable s0 s -> List.length (s_procs s0) <= List.length (s_procs s).
+  Proof.
+    intros s0 s Hr. induction Hr as [|s s' _ IH Hst]; [lia|]. apply step_length in Hst. lia.
+  Qed.
+
+  Lemma Forall_and : forall A (P Q : A -> Prop) l, Forall P l -> Forall Q l -> Forall (fun x => P x /\ Q x) l.
+  Proof. intros A P Q l H1 H2. rewrite Forall_forall in *. intros x Hx. split; auto. Qed.
+
+  Lemma InvL_step : forall s s', InvL s -> sys_step s s' -> List.length (s_procs s') = List.length (s_procs s) -> InvL s'.
+  Proof.
+    intros s s' (HI & HLL & HD) Hst Hlen. split; [eapply Inv_step; eassumption|].
+    destruct Hst as [s i p n Hn|s i p Hn|s p Hpc Hcnt Houts Htodo Hfresh]; cbn [s_fs s_procs] in *.
+    - pose proof (Inv_pstep s i p n HI Hn) as (Hpid & HG & Hok').
+      pose proof (Inv_proc s i p HI Hn) as Hok.
+      assert (Hdp : disc_ok (s_fs s) p).
+      { rewrite Forall_forall in HD. apply HD. eapply nth_error_In. exact Hn. }
+      destruct HI as (Hsep & Hvr & Hvd & HB & HL & Hnd & HF). split.
+      + intros x t Hv Hx. destruct (G_at_link _ _ _ _ x t HG Hv Hx) as [H|(k & items & Hk & Hpc & Ht)].
+        * destruct (HLL x t Hv H) as (k & Hk & Ht & Hc). exists k. split; [exact Hk|]. split; [exact Ht|].
+          eapply G_complete_mono; eassumption.
+        * exists k. split; [exact Hk|]. split; [exact Ht|]. unfold disc_ok in Hdp. rewrite Hpc in Hdp. simpl in Hdp.
+          eapply G_complete_mono; try eassumption. apply Hdp.
+      + apply (Forall_replace_nth _ _ p_pid (fun q => proc_ok (s_fs s) q /\ disc_ok (s_fs s) q) _ _ i p _ Hn Hnd).
+        * apply Forall_and; assumption.
+        * apply disc_step; assumption.
+        * intros q _ _ [(Hc & Hg & _) Hdq]. unfold disc_ok. eapply disc_pc_stable; eassumption.
+    - split; [exact HLL|].
+      destruct HI as (Hsep & Hvr & Hvd & HB & HL & Hnd & HF).
+      apply (Forall_replace_nth _ _ p_pid (disc_ok (s_fs s)) _ _ i p _ Hn Hnd HD).
+      + exact I.
+      + intros q _ _ H. exact H.
+    - rewrite app_length in Hlen. simpl in Hlen. lia.
+  Qed.
+
+  Lemma InvL_reachable : forall s0 s, InvL s0 -> reachable s0 s ->
+    List.length (s_procs s) = List.length (s_procs s0) -> InvL s.
+  Proof.
+    intros s0 s H0 Hr. induction Hr as [|s s' Hr IH Hst]; intro Hlen; [exact H0|].
+    pose proof (reach_length _ _ Hr) as H1. pose proof (step_length _ _ Hst) as H2.
+    apply (InvL_step s s'); [apply IH; lia|exact Hst|lia].
+  Qed.
+
+  Lemma links_live : forall s0 s, init_ok s0 -> LinkLive (s_fs s0) -> disciplined root enc menc s0 ->
+    reachable_nospawn s0 s -> LinkLive (s_fs s).
+  Proof.
+    intros s0 s H0 HLL Hd [Hr Hlen].
+    assert (HL0 : InvL s0).
+    { split; [apply Inv_init; exact H0|]. split; [exact HLL|]. apply Forall_forall. intros p Hp.
+      destruct H0 as (_ & _ & _ & _ & _ & _ & _ & Hps). destruct (Hps p Hp) as (Hpc & _).
+      unfold disc_ok. rewrite Hpc. simpl. apply Hd. exact Hp. }
+    apply (InvL_reachable s0 s HL0 Hr Hlen).
+  Qed.
+
+  (* ------------------------------------------------------------------------------------------------------------ *)
+  (* C07: writers never fail *)
+  Lemma last_cons_default : forall A (l : list A) x d, last (x :: l) d = last l x.
+  Proof.
+    intros A l. induction l as [|y l IH]; intros x d; [reflexivity|].
+    change (last (x :: y :: l) d) with (last (y :: l) d). rewrite (IH y d). rewrite (IH y x). reflexivity.
+  Qed.
+
+  Lemma parent_visible : forall x, visible x = true -> visible (parent x) = true.
+  Proof.
+    unfold visible, parent. induction x as [|c x IH]; intro H; [reflexivity|].
+    simpl in H. apply andb_true_iff in H as [H1 H2]. destruct x as [|c' x']; [reflexivity|].
+    change (removelast (c :: c' :: x')) with (c :: removelast (c' :: x')).
+    change (forallb is_name (c :: removelast (c' :: x'))) with (is_name c && forallb is_name (removelast (c' :: x'))).
+    rewrite H1. simpl. apply IH. exact H2.
+  Qed.
+
+  Fixpoint chain (prev : path) (dirs : list path) : Prop :=
+    match dirs with [] => True | d :: r => parent d = prev /\ chain d r end.
+
+  Lemma dirs_between_chain : forall rest base, chain base (dirs_between base rest).
+  Proof.
+    induction rest as [|c r IH]; intro base; simpl; [exact I|]. split; [apply parent_snoc|apply IH].
+  Qed.
+
+  Lemma dirs_between_last : forall rest base, last (dirs_between base rest) base = base ++ rest.
+  Proof.
+    induction rest as [|c r IH]; intro base.
+    - simpl. rewrite app_nil_r. reflexivity.
+    - change (dirs_between base (c :: r)) with ((base ++ [c]) :: dirs_between (base ++ [c]) r).
+      rewrite last_cons_default. rewrite IH. rewrite <- app_assoc. reflexivity.
+  Qed.
+
+  Lemma G_dir_mono : forall p p' fs fs' x, BlobInv fs -> G p p' fs fs' -> visible x = true ->
+    fs x = Some NDir -> fs' x = Some NDir.
+  Proof.
+    intros p p' fs fs' x HB HG Hv Hx.
+    destruct (HG x) as [H|X b Hx' _|r next _ _ Hn _ _|k Hk Hxk _|k Hk Hxk _ _|k items _ _ _ Hnd _].
+    - congruence.
+    - rewrite Hx' in Hv. rewrite tmp_not_visible in Hv. discriminate.
+    - congruence.
+    - subst x. destruct (HB k Hk) as [HB1 _]. specialize (HB1 _ Hx). discriminate.
+    - subst x. destruct (HB k Hk) as [_ HB2]. destruct (HB2 _ Hx) as [HB3 _]. discriminate.
+    - contradiction.
+  Qed.
+
+  Section Writers.
+    Variable s0 : sys.
+    Hypothesis H0 : init_ok s0.
+    Hypothesis HW0 : writers_ok root data s0.
+
+    Definition L (loc : path) : Prop := commits s0 loc.
+    Definition items_in_L (items : list (path * bytes)) : Prop := forall loc k, In (loc, k) items -> L loc.
+    Definition todo_in_L (todo : list opcall) : Prop := forall items, In (OpSync items) todo -> items_in_L items.
+    Definition dirzone (d : path) : Prop :=
+      exists loc a b, L loc /\ a <> [] /\ b <> [] /\ d = data ++ a /\ loc = d ++ b.
+
+    Lemma Hsep0 : separated.
+    Proof. apply H0. Qed.
+
+    Lemma L_good : forall loc, L loc -> good_loc loc.
+    Proof.
+      intros loc (p & items & k & Hp & Hi & Hl). destruct H0 as (_ & _ & _ & _ & _ & _ & _ & Hps).
+      destruct (Hps p Hp) as (_ & _ & _ & Hg). rewrite Forall_forall in Hg. specialize (Hg _ Hi). simpl in Hg.
+      destruct (Hg loc k Hl) as (_ & Hv & Hs). split; assumption.
+    Qed.
+
+    Lemma L_prefix_free : forall loc loc', L loc -> L loc' -> is_prefix loc loc' = true -> loc = loc'.
+    Proof. destruct HW0 as (_ & _ & H & _). exact H. Qed.
+
+    Lemma dirzone_not_L : forall d, dirzone d -> L d -> False.
+    Proof.
+      intros d (loc & a & b & Hl & Ha & Hb & Hd & Hloc) HLd.
+      assert (E : d = loc). { apply L_prefix_free; [exact HLd|exact Hl|]. apply is_prefix_spec. exists b. exact Hloc. }
+      rewrite E in Hloc. rewrite <- (app_nil_r loc) in Hloc at 1. apply app_inv_head in Hloc. congruence.
+    Qed.
+
+    Lemma dirzone_good_loc : forall d, dirzone d -> good_loc d.
+    Proof.
+      intros d (loc & a & b & Hl & Ha & Hb & Hd & Hloc). split.
+      - apply L_good in Hl. destruct Hl as [Hv _]. rewrite Hloc in Hv. eapply visible_app_l; exact Hv.
+      - exists a. auto.
+    Qed.
+
+    Lemma dirzone_visible : forall d, dirzone d -> visible d = true.
+    Proof. intros d H. apply dirzone_good_loc in H. apply H. Qed.
+
+    Definition mk_ok (fs : fsys) (dirs : list path) (tgt : path) : Prop :=
+      exists prev, fs prev = Some NDir /\ visible prev = true /\ chain prev dirs /\ last dirs prev = tgt /\ Forall dirzone dirs.
+
+    (* membership of the locations of a pc in L (independent of the file system) *)
+    Fixpoint wl_pc (c : pc) : Prop :=
+      match c with
+      | PMkdirs _ next => wl_pc next
+      | PSP_next items => items_in_L items
+      | PSP_check loc _ items | PSP_symlink loc _ items | PSP_replace loc _ items => L loc /\ items_in_L items
+      | _ => True
+      end.
+
+    (* the directories a pc relies on *)
+    Definition wd_pc (fs : fsys) (c : pc) : Prop :=
+      match c with
+      | PMkdirs dirs next =>
+        match next with
+        | PSP_check loc _ _ => mk_ok fs dirs (parent loc)
+        | PIdle => Forall (fun d => fs d = Some NDir) dirs
+        | _ => False
+        end
+      | PSP_check loc _ _ | PSP_symlink loc _ _ | PSP_replace loc _ _ => fs (parent loc) = Some NDir
+      | _ => True
+      end.
+
+    Definition w_ok (fs : fsys) (p : proc) : Prop := wl_pc (p_pc p) /\ wd_pc fs (p_pc p) /\ todo_in_L (p_todo p).
+
+    Definition init_dirs : list path := dirs_between [] root ++ dirs_between [] data ++ [blobs_dir].
+
+    Definition FsW (fs : fsys) : Prop :=
+      (forall d, In d init_dirs -> fs d = Some NDir) /\ fs data = Some NDir /\
+      (forall d, dirzone d -> fs d = None \/ fs d = Some NDir) /\
+      (forall loc, L loc -> fs loc = None \/ exists t, fs loc = Some (NLink t)).
+
+    Definition TmpInv (s : sys) : Prop :=
+      forall X b pid n, s_fs s (X ++ [CTmp b pid n]) <> None ->
+        exists q, In q (s_procs s) /\ p_pid q = pid /\ (n < p_cnt q \/ (n = p_cnt q /\ busy (p_pc q) = true)).
+
+    Definition W (s : sys) : Prop := Inv s /\ TmpInv s /\ FsW (s_fs s) /\ Forall (w_ok (s_fs s)) (s_procs s).
+
+    Lemma FsW_init : FsW (s_fs s0).
+    Proof.
+      destruct HW0 as (H1 & H2 & H3 & H4 & H5). split; [exact H1|]. split; [exact H2|]. split; [|exact H5].
+      intros d (loc & a & b & Hl & Ha & Hb & Hd & Hloc). exact (H4 loc d a b Hl Ha Hb Hd Hloc).
+    Qed.
+
+    Lemma W_init : W s0.
+    Proof.
+      split; [apply Inv_init; exact H0|]. split; [|split; [apply FsW_init|]].
+      - intros X b pid n Hx. exfalso. apply Hx. destruct H0 as (_ & _ & _ & Hnt & _). apply Hnt.
+        exists (CTmp b pid n). split; [apply in_or_app; right; left; reflexivity|reflexivity].
+      - apply Forall_forall. intros p Hp. destruct H0 as (_ & _ & _ & _ & _ & _ & _ & Hps).
+        destruct (Hps p Hp) as (Hpc & _). unfold w_ok. rewrite Hpc. simpl. split; [exact I|]. split; [exact I|].
+        intros items Hi loc k Hl. exists p, items, k. auto.
+    Qed.
+
+    Lemma init_dirs_visible : forall d, visible root = true -> visible data = true -> In d init_dirs -> visible d = true.
+    Proof.
+      intros d Hvr Hvd Hd. pose proof (init_dirs_good Hsep0 Hvr Hvd) as Hg. rewrite Forall_forall in Hg. apply (Hg d Hd).
+    Qed.
+
+    Lemma FsW_step : forall p p' fs fs', visible root = true -> visible data = true -> BlobInv fs ->
+      G p p' fs fs' -> w_ok fs p -> FsW fs -> FsW fs'.
+    Proof.
+      intros p p' fs fs' Hvr Hvd HB HG (Hwl & Hwd & _) (F1 & F2 & F3 & F4). split; [|split; [|split]].
+      - intros d Hd. eapply G_dir_mono; try eassumption; [eapply init_dirs_visible; eassumption|apply F1; exact Hd].
+      - eapply G_dir_mono; eassumption.
+      - intros d Hd. pose proof (dirzone_good_loc d Hd) as Hgl.
+        destruct (HG d) as [H|X b Hx' _|r next _ _ _ Hn _|k Hk Hxk _|k Hk Hxk _ _|k items _ _ Hpc _ _].
+        + rewrite H. apply F3. exact Hd.
+        + exfalso. destruct Hgl as [Hv _]. rewrite Hx' in Hv. rewrite tmp_not_visible in Hv. discriminate.
+        + right. exact Hn.
+        + exfalso. apply (good_loc_not_in_blobs d Hsep0 Hgl). rewrite Hxk. apply blob_in_blobs.
+        + exfalso. apply (good_loc_not_in_blobs d Hsep0 Hgl). rewrite Hxk. apply meta_in_blobs.
+        + exfalso. rewrite Hpc in Hwl. simpl in Hwl. apply (dirzone_not_L d Hd). apply Hwl.
+      - intros loc Hl. pose proof (L_good loc Hl) as Hgl.
+        destruct (HG loc) as [H|X b Hx' _|r next _ _ Hfn _ Hpc|k Hk Hxk _|k Hk Hxk _ _|k items _ _ _ _ Hf].
+        + rewrite H. apply F4. exact Hl.
+        + exfalso. destruct Hgl as [Hv _]. rewrite Hx' in Hv. rewrite tmp_not_visible in Hv. discriminate.
+        + exfalso. rewrite Hpc in Hwd. simpl in Hwd. destruct next; try contradiction.
+          * inversion Hwd; subst. congruence.
+          * destruct Hwd as (prev & _ & _ & _ & _ & Hdz). inversion Hdz; subst. eapply dirzone_not_L; eassumption.
+        + exfalso. apply (good_loc_not_in_blobs loc Hsep0 Hgl). rewrite Hxk. apply blob_in_blobs.
+        + exfalso. apply (good_loc_not_in_blobs loc Hsep0 Hgl). rewrite Hxk. apply meta_in_blobs.
+        + right. eauto.
+    Qed.
+
+    Lemma todo_in_L_nil : todo_in_L [].
+    Proof. intros items []. Qed.
+
+    Lemma wd_pc_stable : forall p p' fs fs' pid cnt c, BlobInv fs -> G p p' fs fs' -> pc_ok fs pid cnt c ->
+      wd_pc fs c -> wd_pc fs' c.
+    Proof.
+      intros p p' fs fs' pid cnt c HB HG Hc Hw.
+      assert (Hd : forall x, visible x = true -> fs x = Some NDir -> fs' x = Some NDir)
+        by (intros x; eapply G_dir_mono; eassumption).
+      assert (Hpl : forall loc, good_loc loc -> fs (parent loc) = Some NDir -> fs' (parent loc) = Some NDir).
+      { intros loc [Hv _]. apply Hd. apply parent_visible. exact Hv. }
+      destruct c as [|dirs next|k|k rest|k|k|k|k rest|k|k|items|loc k items|loc k items|loc k items|k|k|k|k|k m|loc|loc|loc|];
+        simpl in *; try exact I.
+      - destruct Hc as [Hgd _]. destruct next; try contradiction.
+        + rewrite Forall_forall in *. intros d Hin. apply Hd; [apply (Hgd d Hin)|apply Hw; exact Hin].
+        + destruct Hw as (prev & W1 & W2 & W3 & W4 & W5). exists prev. repeat split; auto.
+      - apply Hpl; [apply Hc|exact Hw].
+      - apply Hpl; [apply Hc|exact Hw].
+      - apply Hpl; [apply Hc|exact Hw].
+    Qed.
+
+    Lemma parent_loc_cases : forall loc, L loc -> parent loc = data \/ dirzone (parent loc).
+    Proof.
+      intros loc Hl. destruct (L_good loc Hl) as [Hv (segs & Hne & Hloc)].
+      assert (Hp : parent loc = data ++ removelast segs) by (rewrite Hloc; apply parent_loc; exact Hne).
+      destruct (removelast segs) as [|c r] eqn:E.
+      - left. rewrite Hp. apply app_nil_r.
+      - right. exists loc, (c :: r), [last segs (CName [])]. split; [exact Hl|]. split; [discriminate|]. split; [discriminate|].
+        split; [exact Hp|]. rewrite Hp. rewrite <- app_assoc. rewrite <- E. rewrite <- app_removelast_last; [exact Hloc|exact Hne].
+    Qed.
+
+    Lemma parent_loc_dir : forall fs loc, FsW fs -> L loc -> fs_exists fs (parent loc) = true -> fs (parent loc) = Some NDir.
+    Proof.
+      intros fs loc (_ & F2 & F3 & _) Hl He. destruct (parent_loc_cases loc Hl) as [E|Hd].
+      - rewrite E. exact F2.
+      - destruct (F3 _ Hd) as [Hn|Hn]; [|exact Hn]. unfold fs_exists in He. rewrite Hn in He. discriminate.
+    Qed.
+
+    Lemma sync_mk_ok : forall fs loc, visible data = true -> FsW fs -> L loc ->
+      mk_ok fs (dirs_between data (skipn (List.length data) (parent loc))) (parent loc).
+    Proof.
+      intros fs loc Hvd (_ & F2 & _) Hl. exists data. split; [exact F2|]. split; [exact Hvd|].
+      split; [apply dirs_between_chain|]. split.
+      - rewrite dirs_between_last. destruct (L_good loc Hl) as [_ (segs & Hne & Hloc)].
+        rewrite Hloc. rewrite (parent_loc segs Hne). rewrite skipn_app_exact. reflexivity.
+      - apply Forall_forall. intros d Hd. destruct (sync_dirs_spec loc d (L_good loc Hl) Hd) as (a & b & Ha & Hb & Hda & Hlb).
+        exists loc, a, b. auto.
+    Qed.
+
+    Lemma w_step : forall fs p n, visible root = true -> visible data = true -> BlobInv fs ->
+      proc_ok fs p -> FsW fs -> w_ok fs p -> w_ok (fst (pstep fs p n)) (snd (pstep fs p n)).
+    Proof.
+      intros fs p n Hvr Hvd HB Hok HF (Hwl & Hwd & Htd).
+      pose proof (pstep_sound fs p n Hsep0 Hvr Hvd HB Hok) as (_ & HG & _).
+      assert (H' : wd_pc (fst (pstep fs p n)) (p_pc p)).
+      { destruct Hok as (Hc & _). eapply wd_pc_stable; eassumption. }
+      pose proof (proj1 Hok) as Hc. clear HG. revert H'. unfold w_ok.
+      destruct (p_pc p) as [|dirs next|k|k rest|k|k|k|k rest|k|k|items|loc k items|loc k items|loc k items|k|k|k|k|k m|loc|loc|loc|] eqn:Hpc;
+        unfold LocalProgs.pstep; rewrite Hpc; cbv beta iota;
+        try (destruct rest as [|a r']; cbv beta iota zeta);
+        try (match goal with |- context [or_fail _ _ ?r _] => destruct r eqn:E end);
+        cbn [or_fail fst snd fail set_pc bump finish p_pc p_todo wl_pc wd_pc]; intro H';
+        try (repeat split; solve [exact I|exact Htd|apply todo_in_L_nil]).
+      - (* idle *) destruct (p_todo p) as [|o r] eqn:Htodo; cbn [fst snd p_pc p_todo].
+        + rewrite Htodo, Hpc. simpl. auto.
+        + assert (Hr : todo_in_L r) by (intros items Hi; apply Htd; right; exact Hi).
+          destruct o as [|k|items|k|k|loc]; simpl; repeat split; auto.
+          * apply Forall_forall. intros d Hd. apply HF. exact Hd.
+          * apply Htd. left. reflexivity.
+      - (* mkdirs *) destruct dirs as [|d r].
+        + destruct next; try contradiction; cbn [fst snd set_pc finish p_pc p_todo wl_pc wd_pc] in *.
+          * auto.
+          * split; [exact Hwl|]. split; [|exact Htd].
+            destruct H' as (prev & W1 & _ & _ & W4 & _). simpl in W4. congruence.
+        + destruct next; try contradiction.
+          * (* OpInit *) destruct (do_mkdir fs d) as [fs'|].
+            -- cbn [fst snd set_pc p_pc p_todo wl_pc wd_pc] in *. inversion H'; subst. auto.
+            -- destruct (fs_isdir fs d); cbn [fst snd set_pc fail p_pc p_todo wl_pc wd_pc] in *.
+               ++ inversion H'; subst. auto.
+               ++ repeat split; auto. apply todo_in_L_nil.
+          * (* sync *)
+            assert (Hdz : dirzone d).
+            { simpl in Hwd. destruct Hwd as (prev & _ & _ & _ & _ & W5). inversion W5; assumption. }
+            assert (Hnext : forall fs', wd_pc fs' (PMkdirs (d :: r) (PSP_check loc k items)) -> fs' d = Some NDir ->
+                                        wd_pc fs' (PMkdirs r (PSP_check loc k items))).
+            { intros fs' (prev & W1 & W2 & [W3 W3'] & W4 & W5) Hd. exists d. split; [exact Hd|].
+              split; [apply dirzone_visible; exact Hdz|]. split; [exact W3'|]. split.
+              - rewrite last_cons_default in W4. exact W4.
+              - inversion W5; assumption. }
+            destruct (do_mkdir fs d) as [fs'|] eqn:E.
+            -- cbn [fst snd set_pc p_pc p_todo wl_pc] in *. split; [exact Hwl|]. split; [|exact Htd].
+               apply Hnext; [exact H'|]. apply do_mkdir_some in E as (_ & _ & E). subst fs'. apply upd_same.
+            -- destruct (fs_isdir fs d) eqn:Ei; cbn [fst snd set_pc fail p_pc p_todo wl_pc] in *.
+               ++ split; [exact Hwl|]. split; [|exact Htd]. apply Hnext; [exact H'|].
+                  destruct HF as (_ & _ & F3 & _). destruct (F3 d Hdz) as [Hn|Hn]; [|exact Hn].
+                  unfold fs_isdir in Ei. rewrite Hn in Ei. discriminate.
+               ++ simpl. repeat split; auto. apply todo_in_L_nil.
+      - (* PSP_next *) destruct items as [|[loc k] items]; cbn [fst snd set_pc finish p_pc p_todo wl_pc wd_pc] in *.
+        + auto.
+        + assert (Hl : L loc) by (apply (Hwl loc k); left; reflexivity).
+          assert (Hi : items_in_L items) by (intros l' k' Hin; apply (Hwl l' k'); right; exact Hin).
+          destruct (fs_exists fs (parent loc)) eqn:Ee; cbn [wl_pc wd_pc].
+          * split; [auto|]. split; [|exact Htd]. apply parent_loc_dir; assumption.
+          * split; [auto|]. split; [|exact Htd]. apply sync_mk_ok; assumption.
+      - (* PSP_check *) destruct (fs_exists fs loc && path_eqb (fs_realpath fs loc) (blob k)); cbn [wl_pc wd_pc].
+        + split; [apply Hwl|]. auto.
+        + auto.
+      - (* PSP_symlink *) auto.
+      - (* PSP_replace *) split; [apply Hwl|]. auto.
+      - destruct (fs_exists fs (blob k)); simpl; auto.
+      - destruct (fs_exists fs (meta k)); simpl; auto.
+      - destruct (fs_read fs (meta k)); simpl; auto using todo_in_L_nil.
+      - destruct (fs_read fs (blob k)); simpl; auto using todo_in_L_nil.
+      - destruct (fs_exists fs (parent loc)); simpl; auto.
+      - destruct (fs_exists fs loc); simpl; auto.
+      - rewrite Hpc. simpl. auto.
+    Qed.
+
+    (* ---- temporaries are private and never reused ---- *)
+    Lemma pstep_cnt : forall fs p n,
+      p_cnt p <= p_cnt (snd (pstep fs p n)) /\
+      (busy (p_pc p) = true -> p_cnt (snd (pstep fs p n)) = p_cnt p -> busy (p_pc (snd (pstep fs p n))) = true).
+    Proof.
+      intros fs p n.
+      destruct (p_pc p) as [|dirs next|k|k rest|k|k|k|k rest|k|k|items|loc k items|loc k items|loc k items|k|k|k|k|k m|loc|loc|loc|] eqn:Hpc;
+        unfold LocalProgs.pstep; rewrite Hpc; cbv beta iota zeta; unfold or_fail;
+        repeat (match goal with |- context [match ?x with _ => _ end] => destruct x end);
+        cbn [fst snd p_cnt p_pc set_pc bump finish fail busy];
+        (split; [lia|intros Hb He; try reflexivity; try discriminate; try lia]).
+      all: rewrite Hpc; reflexivity.
+    Qed.
+
+    Lemma In_replace_nth_self : forall A (l : list A) i p p', nth_error l i = Some p -> In p' (replace_nth i p' l).
+    Proof.
+      intros A. induction l as [|y r IH]; intros [|j] p p' Hn; simpl in *; try discriminate.
+      - left. reflexivity.
+      - right. eapply IH. exact Hn.
+    Qed.
+
+    Lemma In_replace_nth_other : forall A (l : list A) i p p' q, nth_error l i = Some p -> In q l ->
+      q = p \/ In q (replace_nth i p' l).
+    Proof.
+      intros A. induction l as [|y r IH]; intros [|j] p p' q Hn Hq; simpl in *; try discriminate; try contradiction.
+      - destruct Hq as [Hq|Hq]; [left; congruence|right; right; exact Hq].
+      - destruct Hq as [Hq|Hq]; [right; left; exact Hq|].
+        destruct (IH j p p' q Hn Hq) as [H|H]; [left; exact H|right; right; exact H].
+    Qed.
+
+    Lemma TmpInv_proc : forall s i p n, Inv s -> TmpInv s -> nth_error (s_procs s) i = Some p ->
+      TmpInv (Sys (fst (pstep (s_fs s) p n)) (replace_nth i (snd (pstep (s_fs s) p n)) (s_procs s))).
+    Proof.
+      intros s i p n HI HT Hn. pose proof (Inv_pstep s i p n HI Hn) as (Hpid & HG & _).
+      pose proof (pstep_cnt (s_fs s) p n) as [Hle Hbusy].
+      intros X b pid m Hx. cbn [s_fs s_procs] in *.
+      destruct (HG (X ++ [CTmp b pid m])) as [H|X' b' Hx' Ht|r next Hv _ _ _ _|k _ Hxk _|k _ Hxk _ _|k items _ Hl _ _ _].
+      - rewrite H in Hx. destruct (HT X b pid m Hx) as (q & Hq & Hqp & Hqc).
+        destruct (In_replace_nth_other _ _ i p (snd (pstep (s_fs s) p n)) q Hn Hq) as [E|E].
+        + subst q. exists (snd (pstep (s_fs s) p n)). split; [eapply In_replace_nth_self; exact Hn|].
+          split; [congruence|]. destruct Hqc as [Hqc|[Hqc Hqb]]; [left; lia|].
+          destruct (Nat.eq_dec (p_cnt (snd (pstep (s_fs s) p n))) (p_cnt p)) as [Ec|Ec]; [right|left; lia].
+          split; [congruence|]. apply Hbusy; assumption.
+        + exists q. auto.
+      - destruct Ht as [Ht|[Hc Hb]]; [contradiction|].
+        apply app_inj_tail in Hx' as [_ Hx']. inversion Hx'; subst.
+        exists (snd (pstep (s_fs s) p n)). split; [eapply In_replace_nth_self; exact Hn|]. split; [exact Hpid|].
+        right. split; [congruence|exact Hb].
+      - rewrite tmp_not_visible in Hv. discriminate.
+      - unfold LocalProgs.blob in Hxk. apply app_inj_tail in Hxk as [_ Hxk]. discriminate.
+      - unfold LocalProgs.meta in Hxk. apply app_inj_tail in Hxk as [_ Hxk]. discriminate.
+      - apply good_loc_visible in Hl. rewrite tmp_not_visible in Hl. discriminate.
+    Qed.
+
+    Lemma TmpInv_crash : forall s i p, TmpInv s -> nth_error (s_procs s) i = Some p ->
+      TmpInv (Sys (s_fs s) (replace_nth i (fail p) (s_procs s))).
+    Proof.
+      intros s i p HT Hn X b pid m Hx. cbn [s_fs s_procs] in *. destruct (HT X b pid m Hx) as (q & Hq & Hqp & Hqc).
+      destruct (In_replace_nth_other _ _ i p (fail p) q Hn Hq) as [E|E].
+      - subst q. exists (fail p). split; [eapply In_replace_nth_self; exact Hn|]. split; [exact Hqp|].
+        simpl. destruct Hqc as [Hqc|[Hqc _]]; [left; exact Hqc|right; auto].
+      - exists q. auto.
+    Qed.
+
+    Lemma W_step : forall s s', W s -> sys_step s s' -> List.length (s_procs s') = List.length (s_procs s) -> W s'.
+    Proof.
+      intros s s' (HI & HT & HF & HWp) Hst Hlen. split; [eapply Inv_step; eassumption|].
+      destruct Hst as [s i p n Hn|s i p Hn|s p Hpc Hcnt Houts Htodo Hfresh].
+      - pose proof (Inv_pstep s i p n HI Hn) as (Hpid & HG & Hok').
+        pose proof (Inv_proc s i p HI Hn) as Hok.
+        assert (Hwp : w_ok (s_fs s) p).
+        { rewrite Forall_forall in HWp. apply HWp. eapply nth_error_In. exact Hn. }
+        split; [apply TmpInv_proc; assumption|]. cbn [s_fs s_procs].
+        destruct HI as (Hsep & Hvr & Hvd & HB & HL & Hnd & HFp). split.
+        + eapply FsW_step; eassumption.
+        + apply (Forall_replace_nth _ _ p_pid (fun q => proc_ok (s_fs s) q /\ w_ok (s_fs s) q) _ _ i p _ Hn Hnd).
+          * apply Forall_and; assumption.
+          * apply w_step; assumption.
+          * intros q _ _ [(Hc & _) (Hwl & Hwd & Htd)]. split; [exact Hwl|]. split; [|exact Htd].
+            eapply wd_pc_stable; eassumption.
+      - split; [apply TmpInv_crash; assumption|]. cbn [s_fs s_procs]. split; [exact HF|].
+        destruct HI as (Hsep & Hvr & Hvd & HB & HL & Hnd & HFp).
+        apply (Forall_replace_nth _ _ p_pid (w_ok (s_fs s)) _ _ i p _ Hn Hnd HWp).
+        + split; [exact I|]. split; [exact I|apply todo_in_L_nil].
+        + intros q _ _ H. exact H.
+      - cbn [s_procs] in Hlen. rewrite app_length in Hlen. simpl in Hlen. lia.
+    Qed.
+
+    Lemma W_reachable : forall s, reachable s0 s -> List.length (s_procs s) = List.length (s_procs s0) -> W s.
+    Proof.
+      intros s Hr. induction Hr as [|s s' Hr IH Hst]; intro Hlen; [apply W_init|].
+      pose proof (reach_length _ _ Hr) as H1. pose proof (step_length _ _ Hst) as H2.
+      apply (W_step s s'); [apply IH; lia|exact Hst|lia].
+    Qed.
+
+    (* ---- no system call of a live process fails ---- *)
+    Lemma isdir_of_dir : forall fs x, fs x = Some NDir -> fs_isdir fs x = true.
+    Proof. intros fs x H. unfold fs_isdir. rewrite H. reflexivity. Qed.
+
+    Lemma parent_tmp_of : forall y pid cnt, parent (tmp_of y pid cnt) = parent y.
+    Proof. intros. rewrite tmp_of_shape. apply parent_snoc. Qed.
+    Lemma parent_blob : forall k, parent (blob k) = blobs_dir.
+    Proof. intro k. unfold LocalProgs.blob. apply parent_snoc. Qed.
+    Lemma parent_meta : forall k, parent (meta k) = blobs_dir.
+    Proof. intro k. unfold LocalProgs.meta. apply parent_snoc. Qed.
+
+    Lemma do_create_ok : forall fs x, fs x = None -> fs (parent x) = Some NDir -> exists fs', do_create fs x = Some fs'.
+    Proof. intros fs x H1 H2. unfold do_create. rewrite H1. rewrite (isdir_of_dir _ _ H2). eauto. Qed.
+
+    Lemma do_symlink_ok : forall fs t x, fs x = None -> fs (parent x) = Some NDir -> exists fs', do_symlink fs t x = Some fs'.
+    Proof. intros fs t x H1 H2. unfold do_symlink. rewrite H1. rewrite (isdir_of_dir _ _ H2). eauto. Qed.
+
+    Lemma do_replace_ok : forall fs src dst nd, fs src = Some nd -> fs dst <> Some NDir -> fs (parent dst) = Some NDir ->
+      exists fs', do_replace fs src dst = Some fs'.
+    Proof.
+      intros fs src dst nd H1 H2 H3. unfold do_replace. rewrite H1. rewrite (isdir_of_dir _ _ H3).
+      destruct (fs dst) as [[c|t|]|]; eauto. congruence.
+    Qed.
+
+    Lemma or_fail_ok : forall p fs r p', (exists fs', r = Some fs') -> p_pc p' <> PFailed ->
+      p_pc (snd (or_fail p fs r p')) <> PFailed.
+    Proof. intros p fs r p' [fs' E] H. rewrite E. exact H. Qed.
+
+    Lemma tmp_absent : forall s p y, W s -> In p (s_procs s) -> busy (p_pc p) = false ->
+      s_fs s (tmp_of y (p_pid p) (p_cnt p)) = None.
+    Proof.
+      intros s p y (HI & HT & _) Hp Hb. destruct (s_fs s (tmp_of y (p_pid p) (p_cnt p))) as [nd|] eqn:E; [|reflexivity].
+      exfalso. rewrite tmp_of_shape in E.
+      destruct (HT (parent y) (last_name y) (p_pid p) (p_cnt p)) as (q & Hq & Hqp & Hqc); [congruence|].
+      destruct HI as (_ & _ & _ & _ & _ & Hnd & _).
+      assert (Eq : q = p) by (eapply NoDup_pid_eq; eassumption). subst q.
+      destruct Hqc as [Hqc|[_ Hqc]]; [lia|congruence].
+    Qed.
+
+    Lemma step_no_fail : forall s i p n, W s -> nth_error (s_procs s) i = Some p -> p_pc p <> PFailed ->
+      p_pc (snd (pstep (s_fs s) p n)) <> PFailed.
+    Proof.
+      intros s i p n HWs Hn Hnf. pose proof HWs as (HI & HT & HF & HWp).
+      pose proof (Inv_proc s i p HI Hn) as Hok. pose proof (proj1 Hok) as Hc.
+      assert (Hin : In p (s_procs s)) by (eapply nth_error_In; exact Hn).
+      assert (Hw : w_ok (s_fs s) p) by (rewrite Forall_forall in HWp; apply HWp; exact Hin).
+      destruct Hw as (Hwl & Hwd & _).
+      assert (Hbd : s_fs s blobs_dir = Some NDir).
+      { destruct HF as (F1 & _). apply F1. unfold init_dirs. apply in_or_app. right. apply in_or_app. right. left. reflexivity. }
+      assert (HB : BlobInv (s_fs s)) by apply HI.
+      pose proof (fun y Hb => tmp_absent s p y HWs Hin Hb) as Habs.
+      destruct (p_pc p) as [|dirs next|k|k rest|k|k|k|k rest|k|k|items|loc k items|loc k items|loc k items|k|k|k|k|k m|loc|loc|loc|] eqn:Hpc;
+        try (apply reader_step_ok; [exact Hok|rewrite Hpc; reflexivity]);
+        unfold LocalProgs.pstep; rewrite Hpc; cbv beta iota; simpl in Hc, Hwl, Hwd.
+      - (* idle *) destruct (p_todo p) as [|o r]; cbn [snd p_pc].
+        + congruence.
+        + destruct o; simpl; discriminate.
+      - (* mkdirs *) destruct dirs as [|d r].
+        + destruct next; try contradiction; simpl; discriminate.
+        + destruct next; try contradiction.
+          * inversion Hwd as [|d' r' Hd Hr]; subst. unfold do_mkdir. rewrite Hd. rewrite (isdir_of_dir _ _ Hd). simpl. discriminate.
+          * destruct Hwd as (prev & W1 & _ & [W3 _] & _ & W5). pose proof (Forall_inv W5) as Hdz.
+            destruct HF as (_ & _ & F3 & _). unfold do_mkdir. destruct (F3 d Hdz) as [Hd|Hd]; rewrite Hd.
+            -- rewrite W3. rewrite (isdir_of_dir _ _ W1). simpl. discriminate.
+            -- rewrite (isdir_of_dir _ _ Hd). simpl. discriminate.
+      - (* PSB_create *) apply or_fail_ok; [|simpl; discriminate]. unfold tmpb. apply do_create_ok.
+        + apply Habs. reflexivity.
+        + rewrite parent_tmp_of, parent_blob. exact Hbd.
+      - (* PSB_write *) destruct rest as [|a r']; [simpl; discriminate|]. cbv zeta.
+        apply or_fail_ok; [|simpl; discriminate]. destruct Hc as (_ & c & Hc1 & _). unfold tmpb, do_append. rewrite Hc1. eauto.
+      - simpl. discriminate.
+      - (* PSB_replace *) apply or_fail_ok; [|simpl; discriminate]. destruct Hc as [Hk Hc]. unfold tmpb.
+        apply do_replace_ok with (NFile (enc k)); [exact Hc| |rewrite parent_blob; exact Hbd].
+        intro E. destruct (HB k Hk) as [HB1 _]. specialize (HB1 _ E). discriminate.
+      - (* PSM_create *) apply or_fail_ok; [|simpl; discriminate]. unfold tmpm. apply do_create_ok.
+        + apply Habs. reflexivity.
+        + rewrite parent_tmp_of, parent_meta. exact Hbd.
+      - (* PSM_write *) destruct rest as [|a r']; [simpl; discriminate|]. cbv zeta.
+        apply or_fail_ok; [|simpl; discriminate]. destruct Hc as (_ & _ & c & Hc1 & _). unfold tmpm, do_append. rewrite Hc1. eauto.
+      - simpl. discriminate.
+      - (* PSM_replace *) apply or_fail_ok; [|simpl; discriminate]. destruct Hc as (Hk & _ & Hc). unfold tmpm.
+        apply do_replace_ok with (NFile (menc k)); [exact Hc| |rewrite parent_meta; exact Hbd].
+        intro E. destruct (HB k Hk) as [_ HB2]. destruct (HB2 _ E) as [HB3 _]. discriminate.
+      - (* PSP_next *) destruct items as [|[loc k] items]; simpl; [discriminate|].
+        destruct (fs_exists (s_fs s) (parent loc)); discriminate.
+      - (* PSP_check *) simpl. destruct (fs_exists (s_fs s) loc && path_eqb (fs_realpath (s_fs s) loc) (blob k)); discriminate.
+      - (* PSP_symlink *) apply or_fail_ok; [|simpl; discriminate]. unfold tmpl. apply do_symlink_ok.
+        + apply Habs. reflexivity.
+        + rewrite parent_tmp_of. exact Hwd.
+      - (* PSP_replace *) apply or_fail_ok; [|simpl; discriminate]. destruct Hc as (_ & _ & _ & Hc). unfold tmpl.
+        apply do_replace_ok with (NLink (blob k)); [exact Hc| |exact Hwd].
+        destruct HF as (_ & _ & _ & F4). destruct Hwl as [Hl _]. destruct (F4 loc Hl) as [E|[t E]]; rewrite E; discriminate.
+      - (* failed *) congruence.
+    Qed.
+
+    Lemma writers_never_fail_s0 : forall s i p n, reachable_nospawn s0 s ->
+      nth_error (s_procs s) i = Some p -> p_pc p <> PFailed ->
+      p_pc (snd (pstep (s_fs s) p n)) <> PFailed.
+    Proof.
+      intros s i p n [Hr Hlen] Hn Hnf. apply (step_no_fail s i p n); [apply W_reachable; assumption|exact Hn|exact Hnf].
+    Qed.
+  End Writers.
+
+  Lemma writers_never_fail : forall s0 s i p n, init_ok s0 -> writers_ok root data s0 -> reachable_nospawn s0 s ->
+    nth_error (s_procs s) i = Some p -> p_pc p <> PFailed ->
+    p_pc (snd (pstep (s_fs s) p n)) <> PFailed.
+  Proof. intros s0 s i p n H0 HW0. apply writers_never_fail_s0; assumption. Qed.
 End Proofs.
+
+(* ------------------------------------------------------------------------------------------------------------------ *)
+(* non-vacuity: two processes that initialise, store and commit on a store whose directories exist *)
+Definition ex_root : path := [CName (bs "I")].
+Definition ex_data : path := [CName (bs "D")].
+Definition ex_key : bytes := bs "aa01".
+Definition ex_loc : path := ex_data ++ [CName (bs "p")].
+Definition ex_fs : fsys := fun x =>
+  if path_eqb x [] || path_eqb x ex_root || path_eqb x ex_data || path_eqb x (blobs_dir ex_root) then Some NDir else None.
+Definition ex_todo : list opcall := [OpInit; OpStore ex_key; OpSync [(ex_loc, ex_key)]].
+Definition ex_sys : sys := Sys ex_fs [Proc 1 0 PIdle ex_todo []; Proc 2 0 PIdle ex_todo []].
+
+Lemma ex_fs_dir : forall x n, ex_fs x = Some n -> n = NDir /\ visible x = true /\ List.length x <= 2.
+Proof.
+  intros x n H. unfold ex_fs in H.
+  destruct (path_eqb x [] || path_eqb x ex_root || path_eqb x ex_data || path_eqb x (blobs_dir ex_root)) eqn:E;
+    [|discriminate].
+  split; [congruence|]. repeat (apply orb_true_iff in E as [E|E]); apply path_eqb_eq in E; subst x; split; try reflexivity; simpl; lia.
+Qed.
+
+Lemma example_system_init :
+  init_ok ex_root ex_data (fun k => k) (fun k => k) ex_sys /\ LinkLive ex_root (fun k => k) (fun k => k) (s_fs ex_sys) /\
+  disciplined ex_root (fun k => k) (fun k => k) ex_sys /\ List.length (s_procs ex_sys) = 2 /\
+  (forall p, In p (s_procs ex_sys) -> List.length (p_todo p) >= 3).
+Proof.
+  assert (Hgo : Forall (good_op ex_data) ex_todo).
+  { constructor; [exact I|]. constructor; [reflexivity|]. constructor; [|constructor].
+    intros loc k [H|[]]. inversion H; subst. split; [reflexivity|]. split; [reflexivity|].
+    exists [CName (bs "p")]. split; [discriminate|reflexivity]. }
+  split; [|split; [|split; [|split]]].
+  - split; [split; reflexivity|]. split.
+    { intros k _. split; intros n H; simpl in H; apply ex_fs_dir in H as (_ & _ & H); simpl in H; lia. }
+    split. { intros loc t _ H. apply ex_fs_dir in H as [H _]. discriminate. }
+    split.
+    { intros x (c & Hin & Hc). simpl. destruct (ex_fs x) as [n|] eqn:E; [|reflexivity].
+      apply ex_fs_dir in E as (_ & E & _). unfold visible in E. rewrite forallb_forall in E. rewrite (E c Hin) in Hc. discriminate. }
+    split; [reflexivity|]. split; [reflexivity|]. split.
+    { simpl. repeat constructor; simpl; intuition discriminate. }
+    intros p [Hp|[Hp|[]]]; subst p; simpl; auto.
+  - intros loc t _ H. simpl in H. apply ex_fs_dir in H as [H _]. discriminate.
+  - intros p [Hp|[Hp|[]]]; subst p; simpl; (split; [|exact I]); intros loc k [H|[]]; inversion H; left; reflexivity.
+  - reflexivity.
+  - intros p [Hp|[Hp|[]]]; subst p; simpl; lia.
+Qed.
+
+Lemma example_system : exists root data enc menc s0, init_ok root data enc menc s0 /\ LinkLive root enc menc (s_fs s0) /\
+  disciplined root enc menc s0 /\ List.length (s_procs s0) = 2 /\ (forall p, In p (s_procs s0) -> List.length (p_todo p) >= 3).
+Proof. exists ex_root, ex_data, (fun k => k), (fun k => k), ex_sys. exact example_system_init. Qed.
+
+(* the same system also satisfies the hypothesis of writers_never_fail *)
+Lemma ex_commits : forall loc, commits ex_sys loc -> loc = ex_loc.
+Proof.
+  intros loc (p & items & k & Hp & Hi & Hl).
+  assert (Ht : p_todo p = ex_todo) by (destruct Hp as [Hp|[Hp|[]]]; subst p; reflexivity).
+  rewrite Ht in Hi. destruct Hi as [Hi|[Hi|[Hi|[]]]]; try discriminate.
+  inversion Hi; subst items. destruct Hl as [Hl|[]]. congruence.
+Qed.
+
+Lemma example_writers_ok : init_ok ex_root ex_data (fun k => k) (fun k => k) ex_sys /\ writers_ok ex_root ex_data ex_sys /\
+  exists loc, commits ex_sys loc.
+Proof.
+  split; [|split].
+  - destruct example_system_init as [H _]. exact H.
+  - split; [|split; [|split; [|split]]].
+    + intros d Hd. simpl in Hd. destruct Hd as [Hd|[Hd|[Hd|[]]]]; subst d; vm_compute; reflexivity.
+    + vm_compute. reflexivity.
+    + intros loc loc' H1 H2 _. apply ex_commits in H1. apply ex_commits in H2. congruence.
+    + intros loc d a b Hl Ha Hb Hd Hloc. exfalso. apply ex_commits in Hl. subst loc d.
+      apply (f_equal (@List.length comp)) in Hloc. rewrite !app_length in Hloc. simpl in Hloc.
+      destruct a; [congruence|]. destruct b; [congruence|]. simpl in Hloc. lia.
+    + intros loc Hl. apply ex_commits in Hl. subst loc. left. vm_compute. reflexivity.
+  - exists ex_loc. exists (Proc 1 0 PIdle ex_todo []), [(ex_loc, ex_key)], ex_key. simpl. tauto.
+Qed.
